@@ -36,7 +36,7 @@ TYPES: dict[str, tuple[Any, ...]] = {
 PLAIN = [t for t in TYPES if not t.startswith("VARCHAR(")]
 
 SPEC = {
-    "runs": {"quick": 250, "thorough": 5000},
+    "runs": {"quick": 400, "thorough": 5000},
     "wall": {"quick": 600, "thorough": 7200},
     "chunk": 8,
     "level": "exploration",
@@ -65,7 +65,7 @@ HAZARDS = ["internal_leak", "recreate", "rename_table", "ctas_clone", "account_s
 
 
 def gen(rng: Any, prop: str, tier: str) -> dict[str, Any]:
-    hz = {h: rng.random() < 0.06 for h in HAZARDS}
+    hz = {h: rng.random() < (0.12 if h in ("recreate", "replace") else 0.06) for h in HAZARDS}
     storage = "db_path" if rng.random() < 0.2 else "memory"
     ops: list[dict[str, Any]] = [{"s": "s0", "k": "connect", "database": "DB1", "schema": "S1"}]
     two = rng.random() < 0.5
@@ -79,10 +79,19 @@ def gen(rng: Any, prop: str, tier: str) -> dict[str, Any]:
     n = rng.randint(6, 28)
     restarted = False
 
-    def new_cols() -> list[list[Any]]:
+    last_cols: dict[tuple[str, str, str], list[list[Any]]] = {}
+
+    def new_cols(fq: tuple[str, str, str] | None = None) -> list[list[Any]]:
         out = []
         for i in range(rng.randint(1, 5)):
             out.append([f"C{i}", rng.choice(list(TYPES)), rng.random() < 0.2])
+        prev = last_cols.get(fq) if fq else None
+        if prev:
+            # re-creating a name: same-named columns with a related declaration (sized <-> unsized text, text <-> non-text)
+            for j, c in enumerate(out):
+                if j < len(prev) and rng.random() < 0.6:
+                    old_t = prev[j][1]
+                    c[1] = rng.choice(["VARCHAR", "VARCHAR(7)", "VARCHAR(20)", "INT"]) if old_t.startswith("VARCHAR") else rng.choice([old_t, "VARCHAR", "VARCHAR(20)"])
         return out
 
     for step in range(n):
@@ -106,7 +115,7 @@ def gen(rng: Any, prop: str, tier: str) -> dict[str, Any]:
                 continue
             if fq in views:
                 continue
-            cols = new_cols()
+            cols = new_cols(fq)
             comment = f"cm{step}" if rng.random() < 0.5 else None
             coldefs = ", ".join(f"{c} {t}{' NOT NULL' if nn else ''}" for c, t, nn in cols)
             ref = name if sc == "S1" and home and rng.random() < 0.5 else f"{db}.{sc}.{name}"
@@ -115,6 +124,7 @@ def gen(rng: Any, prop: str, tier: str) -> dict[str, Any]:
             sql = f"CREATE {'OR REPLACE ' if replace else ''}TABLE {ref} ({coldefs})" + (f" COMMENT = '{comment}'" if comment else "")
             ops.append({"s": sid, "k": "exec", "sql": sql, "ddl": "create_table", "fq": list(fq), "cols": cols, "comment": comment})
             tables[fq] = {"cols": cols, "comment": comment}
+            last_cols[fq] = cols
             used_names.add(fq)
         elif kind == "drop" and mine:
             fq = rng.choice(mine)
@@ -330,6 +340,9 @@ def _observe(world: World, m: MetaModel, hz: dict[str, bool], step_kind: str, ob
                     if k in g and g[k] != w[k]:
                         idx = next(i for i in range(9) if g[k][i] != w[k][i])
                         field = ["", "", "", "ordinal_position", "is_nullable", "data_type", "character_maximum_length", "numeric_precision", "numeric_scale"][idx]
+                        if field == "character_maximum_length":
+                            # a length shown for a column that is not text (any more) vs a wrong length of a text column
+                            field += "/text-column" if w[k][5] == "TEXT" else "/nontext-column"
                         break
                 return v_(f"information_schema.columns/{field}/{step_kind}", "information_schema.columns describes exactly the current columns as most recently declared", d)
             # --- views, databases
